@@ -46,6 +46,9 @@ func runC14(c *Check) {
 				c.SawFunc(f)
 				root := rootFunc(f)
 				why, ok := allowed[root.Name()]
+				if !ok && p.onlyCalledFrom(root, func(g *ssa.Function) bool { _, a := allowed[g.Name()]; return a && recvName(g) == "Service" }, 0) {
+					why, ok = "helper called only from the allowed sites", true
+				}
 				c.Ob("R14.1", "Prune@"+fnName(f), ok, p.Pos(g.Pos()), "allowed site: "+why)
 				if root.Name() == "prune" {
 					sl := backSlice(g.Common().Args[len(g.Common().Args)-1], SliceOpt{})
